@@ -36,6 +36,7 @@ STR_TAG = z3.IntVal(1)
 HEAP_FIELDS = {'value': V, 'formula': V, 'edges': z3.ArraySort(Node, z3.BoolSort())}
 HEAP_FIELDS['set:cell_map'] = z3.BoolSort()      # formula: NONE_V = the cell has no formula (a constant / frozen cell)
 ISRANGE = z3.Function('is_range_node', Node, z3.BoolSort())
+ISUNBOUNDED = z3.Function('is_unbounded_ref_node', Node, z3.BoolSort())
 
 
 def declare_heap_set(name):
@@ -109,6 +110,13 @@ class FKind(VKind):
     """the formula field: an ExcelFormula object (truthy) or None"""
 
     @staticmethod
+    def getattr(interp, v, name, node):
+        if name == 'python_code':
+            # a formula object always carries code (A-CODE): only its truth is used here
+            return 'python-code'
+        raise Unsupported(f'attribute {name} of a formula', node)
+
+    @staticmethod
     def truth(interp, v):
         return interp.ex.branch(v.t != NONE_V)
 
@@ -140,6 +148,8 @@ class SAddrObj:
             return SAddrKey(self.node)
         if name == 'is_range':
             return mk_bool(ISRANGE(self.node))
+        if name == 'is_unbounded_range':
+            return mk_bool(ISUNBOUNDED(self.node))
         raise Unsupported(f'address.{name} of an abstract node', node)
 
 
@@ -238,8 +248,11 @@ class HeapFields:
         if name in HEAP_FIELDS:
             ex = self.interp.ex
             h = dict(heap_of(ex))
+            before = h[name]
             h[name] = z3.Store(h[name], self.node, to_v(self.interp, value))
             ex.heap = h
+            if name == 'value':
+                f_congruence(ex, before, h[name])        # F over the values before and after this assignment
             ex.heap_writes.append((name, self.node))
             return
         self.plain[name] = value
@@ -261,9 +274,11 @@ def heap_cell(interp, node_term, cls_target='pycel.excelcompiler:_Cell'):
 class SCellMap:
     """self.cell_map"""
 
-    def __init__(self, mutable=False):
+    def __init__(self, mutable=False, classes=False):
         # mutable: membership is the heap set 'cell_map' over nodes (graph construction); otherwise the static map
         self.mutable = mutable
+        # classes: a node found in the map is a _CellRange or a _Cell according to is_range_node (evaluation)
+        self.classes = classes
 
     def hm_index(self, interp, idx, node):
         if isinstance(idx, SAddrKey) and self.mutable:
@@ -277,7 +292,10 @@ class SCellMap:
         t = sym.str_term(idx)
         if not interp.ex.branch(INMAP(t)):
             interp.raise_exc('KeyError', 'address not in cell_map', node)
-        return heap_cell(interp, CELLMAP(t))
+        n = CELLMAP(t)
+        if self.classes and interp.ex.branch(ISRANGE(n)):
+            return heap_cell(interp, n, 'pycel.excelcompiler:_CellRange')
+        return heap_cell(interp, n)
 
     def hm_len(self, interp, node):
         n = z3.Int(interp.ex.fresh_name('n_cells'))
@@ -353,6 +371,44 @@ def heap_evaluate(interp, args, kwargs, node):
     h['value'] = new
     ex.heap = h
     return opaque(z3.Select(new, n))
+
+
+def make_heap_eval(frames):
+    """self.eval(cell) as seen by _evaluate: the compiled formula evaluates its read-precedents through _evaluate
+    (frames: the clauses of _evaluate's own contract that hold across those nested calls - induction on the depth of
+    the recursion) and returns F(cell, values), a value that is neither None (eval_func maps blank to 0: C09) nor an
+    address (written references only: computed references - INDIRECT / OFFSET - are outside C01 / C04)"""
+    def heap_eval(interp, args, kwargs, node):
+        vr = interp.world.verifier
+        ex = interp.ex
+        cell = args[0]
+        n = _node(cell)
+        interp.world.trusted.add('A-EVAL: a compiled formula reads exactly its declared read-precedents, through _evaluate, '
+                                 'and returns F(cell, their values); no other effect')
+        pre = dict(heap_of(ex))
+        ex.heap = fresh_heap(ex, 'eval')
+        # what evaluation cannot touch
+        for f in pre:
+            if f != 'value':
+                ex.heap[f] = pre[f]
+        vr.old_heaps.append(pre)
+        try:
+            for fr in frames:
+                vr.assume_spec(fr, list(vr.current_args))
+        finally:
+            vr.old_heaps.pop()
+        new = heap_of(ex)['value']
+        # the cell under evaluation is not assigned by the evaluations it triggers (acyclic model; a cycle raises
+        # RecursionError in non-iterative mode)
+        interp.world.trusted.add('A-ACYCLIC: evaluating a formula does not (transitively) evaluate the same cell')
+        ex.assume(z3.Select(new, n) == z3.Select(pre['value'], n))
+        f_congruence(ex, pre['value'], new)
+        p = z3.Const(ex.fresh_name('rp'), Node)
+        ex.assume(z3.ForAll([p], z3.Implies(READS(p, n), z3.Select(new, p) != NONE_V)))
+        r = FSEM(n, new)
+        ex.assume(r != NONE_V)
+        return opaque(r)
+    return heap_eval
 
 
 class Dummy:
@@ -526,8 +582,12 @@ def sx_local(interp, args, kwargs, node):
 
 
 def sx_in_map(interp, args, kwargs, node):
+    if isinstance(args[0], SAddrKey):
+        return True          # the address of a node of the model
     return mk_bool(INMAP(sym.str_term(args[0])))
 
 
 def sx_cell_at(interp, args, kwargs, node):
+    if isinstance(args[0], SAddrKey):
+        return heap_cell(interp, args[0].node)
     return heap_cell(interp, CELLMAP(sym.str_term(args[0])))
